@@ -480,6 +480,9 @@ class ConcHarness:
                     viol("C15", "undocumented-exception", f"caller {name}: {exc_class(e)}: {e}", leaked=exc_class(e))
                 elif not inj and not canc and not peer_events and not isinstance(e, httpcore.PoolTimeout):
                     viol("C08", "collateral-failure", f"caller {name} failed with {exc_class(e)}: {e} although nothing was injected")
+                    if kind.startswith("up"):
+                        viol("C13", "upload-failed", f"upload {name} failed with {exc_class(e)}: {e} although the server only ever granted credit (no reset, no GOAWAY, "
+                             f"no fault, no cancellation): the transfer was broken from the client's side")
                 elif isinstance(e, httpcore.PoolTimeout) and not any(o.startswith("pt=") for o in opts):
                     viol("C16", "pool-timeout-without-timeout", f"caller {name} got PoolTimeout without a pool timeout")
                 elif isinstance(e, httpcore.PoolTimeout):
@@ -817,7 +820,7 @@ def scenarios(pid, tier):
             out.append(S(ct, [W, "up60000:a"], max_connections=1, h2cfg=dict(manual, initial_window=20000, max_frame=32768),
                          h2script={"wu": [["stream", 70000], ["conn", 70000]], "wu_budget": 2, "mfs": [16384]}, early=False))
             # a flow-control-stalled upload on a full pool while a request for another origin arrives: it waits, the upload finishes
-            out.append(S(ct, [W, "up9:a", "req:b"], max_connections=1, h2cfg=dict(manual, initial_window=4),
+            out.append(S(ct, [W, "up9:a", "req:b:late"], max_connections=1, h2cfg=dict(manual, initial_window=4),
                          h2script={"wu": [["stream", 70000]], "wu_budget": 1}, early=False))
             # body size exactly equal to the credit granted: END_STREAM must follow without further credit
             out.append(S(ct, [W, "up4:a"], max_connections=1, h2cfg=dict(manual, initial_window=4), h2script={"wu": [], "wu_budget": 0}, early=False))
